@@ -248,6 +248,7 @@ fn parse_go(args: String, game: &mut Game, io_receiver: &IoWrapper, tt: &mut Tra
     if move_time != -1 {
         time = move_time
     } else if time != -1 {
+        let remaining = time;
         if time > 2000 {
             time /= moves_to_go;
             time += inc;
@@ -259,6 +260,8 @@ fn parse_go(args: String, game: &mut Game, io_receiver: &IoWrapper, tt: &mut Tra
         else {
             time /= moves_to_go;
         }
+        //Keep the budget below the remaining time and never negative (-1 means "no limit")
+        time = time.min(remaining - 1).max(0);
     }
 
     //Run search
